@@ -134,6 +134,7 @@ pub fn run(env: &mut Env) -> RunResult {
         if matches!(e, SubQos | V3Rc | V3SubRc) {
             continue;
         }
+        // (Utf8Straddle only exists where there are user properties, i.e. in v5: it is in ALL_ENTRIES)
         env.require("c20.catalogue.v5", &format!("entry:{}", e.name()));
     }
     Ok(())
